@@ -20,6 +20,7 @@ import (
 	"github.com/functionx/fx-core/v8/contract"
 	cctypes "github.com/functionx/fx-core/v8/x/crosschain/types"
 	erc20types "github.com/functionx/fx-core/v8/x/erc20/types"
+	fxgovtypes "github.com/functionx/fx-core/v8/x/gov/types"
 	migratetypes "github.com/functionx/fx-core/v8/x/migrate/types"
 	fxstakingtypes "github.com/functionx/fx-core/v8/x/staking/types"
 
@@ -97,6 +98,8 @@ func runHistory(name string) []*abci.ResponseFinalizeBlock {
 		return bridgeGovStaking()
 	case "oracle-churn":
 		return oracleChurn()
+	case "gov-failures":
+		return govFailures()
 	}
 	panic("unknown history " + name)
 }
@@ -246,5 +249,58 @@ func oracleChurn() []*abci.ResponseFinalizeBlock {
 	}, world.BlockTime)
 	h.block(nil, 22*24*time.Hour)
 	h.block(nil, world.BlockTime)
+	return h.out
+}
+
+// govFailures: proposals that pass the vote and then fail while being executed - one whose message returns an error,
+// one whose handler panics (a raw store update first corrupts the eth module's oracle list, the oracle-list update
+// that follows cannot decode it). What the end-blocker records about the failure is consensus data.
+func govFailures() []*abci.ResponseFinalizeBlock {
+	w := world.New(world.Config{Validators: 2, Actors: []string{"bank", "u1", "u2"}})
+	h := &hist{w: w, seqs: map[string]uint64{}}
+	u1, u2 := w.A("u1"), w.A("u2")
+	gov := world.GovAuthority()
+	var os []scen.Oracle
+	h.block(func(ctx sdk.Context) {
+		os = scen.SetupOracles(w, ctx, "eth", []string{"o1", "o2"}, []int64{10000, 10000})
+	}, world.BlockTime)
+	submit := func(who world.Actor, msgs ...sdk.Msg) {
+		m, err := govv1.NewMsgSubmitProposal(msgs, sdk.NewCoins(world.FXCoin(10000)), who.Bech(), "m", "t", "s", false)
+		if err != nil {
+			panic(err)
+		}
+		h.cosmos(who, m)
+	}
+	voteAll := func(id uint64) {
+		for _, v := range w.Vals {
+			h.cosmos(v.Operator, govv1.NewMsgVote(v.Operator.Acc(), id, govv1.OptionYes, ""))
+		}
+	}
+	old := hex.EncodeToString(scen.Store(w, w.Committed(), "eth").Get(cctypes.ProposalOracleKey))
+	// proposal 1: raw store update that leaves an undecodable oracle list behind
+	submit(u1, &fxgovtypes.MsgUpdateStore{Authority: gov, UpdateStores: []fxgovtypes.UpdateStore{{Space: "eth", Key: hex.EncodeToString(cctypes.ProposalOracleKey), OldValue: old, Value: "ff"}}})
+	h.block(nil, world.BlockTime)
+	voteAll(1)
+	h.block(nil, world.BlockTime)
+	h.block(nil, 15*24*time.Hour)
+	// proposal 2: its handler panics on the corrupted list; proposal 3: its message returns an ordinary error
+	submit(u1, &cctypes.MsgUpdateChainOracles{ChainName: "eth", Authority: gov, Oracles: []string{os[0].Acct.Bech()}})
+	submit(u2, &erc20types.MsgToggleTokenConversion{Authority: gov, Token: "no-such-token"})
+	h.block(nil, world.BlockTime)
+	voteAll(2)
+	voteAll(3)
+	h.block(nil, world.BlockTime)
+	h.block(nil, 15*24*time.Hour)
+	h.block(nil, world.BlockTime)
+	ctx := w.Committed()
+	for id, want := range map[uint64]govv1.ProposalStatus{1: govv1.StatusPassed, 2: govv1.StatusFailed, 3: govv1.StatusFailed} {
+		p, err := w.App.GovKeeper.Proposals.Get(ctx, id)
+		if err != nil {
+			panic(fmt.Sprintf("gov-failures: proposal %d: %v", id, err))
+		}
+		if p.Status != want {
+			panic(fmt.Sprintf("gov-failures: proposal %d ended %s (%s), the history needs %s", id, p.Status, p.FailedReason, want))
+		}
+	}
 	return h.out
 }
